@@ -59,9 +59,12 @@ pub fn scenarios() -> Vec<Script> {
         Script { name: "timer vs flag raise: go movetime 0".into(), lines: vec![n(&p0), n("go movetime 0"), w("quit")] },
         Script { name: "stop at thread start".into(), lines: vec![n(&p0), n("go infinite"), n("stop"), w("quit")] },
         Script { name: "command between bestmove and flag reset".into(), lines: vec![n(&p0), n("go depth 1"), w(&p1), w("go depth 1"), w("quit")] },
-        Script { name: "go again after a self-terminated search with a live timer".into(), lines: vec![n(&p0), n("go movetime 1 depth 1"), w(&p1), w("go infinite"), n("isready"), n("stop"), w("quit")] },
-        Script { name: "live timer of a stopped search, then an unlimited search".into(), lines: vec![n(&p0), n("go movetime 1"), n("stop"), w(&p1), w("go infinite"), n("isready"), n("stop"), w("quit")] },
-        Script { name: "live timer of a finished search, then a depth-limited search".into(), lines: vec![n(&p0), n("go movetime 1 depth 1"), w(&p1), w("go depth 1"), w(&p0), w("go depth 1"), w("quit")] },
+        Script { name: "go again after a self-terminated search whose timer is still pending".into(), lines: vec![n(&p0), n("go movetime 1 depth 1"), w(&p1), w("go infinite"), n("isready"), n("stop"), w("quit")] },
+        // the three "live timer" scripts are explored with the sleeping-timer cost model (sched.rs); kept short, their
+        // schedule count grows by two orders of magnitude
+        Script { name: "live timer of a finished search, then an unlimited search".into(), lines: vec![n(&p0), n("go movetime 1 depth 1"), w(&p1), w("go infinite"), n("stop"), w("quit")] },
+        Script { name: "live timer of a stopped search, then an unlimited search".into(), lines: vec![n(&p0), n("go movetime 1"), n("stop"), w(&p1), w("go infinite"), n("stop"), w("quit")] },
+        Script { name: "live timer of a finished search, then a depth-limited search".into(), lines: vec![n(&p0), n("go movetime 1 depth 1"), w(&p1), w("go depth 1"), w("quit")] },
         Script { name: "ucinewgame mid-search".into(), lines: vec![n(&p0), n("go infinite"), n("ucinewgame"), w(&p1), w("go depth 1"), w("quit")] },
         Script { name: "quit mid-search".into(), lines: vec![n(&p0), n("go infinite"), n("quit")] },
         Script { name: "clock go, then the next move of the game".into(), lines: vec![n(&p0), n("go wtime 1000 btime 1000 winc 0 binc 0"), w(&p1), w("go wtime 900 btime 1000 winc 0 binc 0"), w("quit")] },
@@ -73,6 +76,7 @@ pub fn scenarios() -> Vec<Script> {
 
 pub fn all_scripts(tier: &str) -> Vec<Script> {
     let a = alphabet();
+    let quick = tier == "quick";
     let maxlen = if tier == "quick" { 3 } else { 4 };
     let mut words: Vec<Vec<&str>> = vec![vec![]];
     let mut out = vec![];
@@ -92,7 +96,8 @@ pub fn all_scripts(tier: &str) -> Vec<Script> {
         }
         words = next;
     }
-    let mut scripts = scenarios();
+    // the costliest sleeping-timer scenario (~22 k schedules at bound 2) is left to the thorough tier
+    let mut scripts: Vec<Script> = scenarios().into_iter().filter(|s| !(quick && s.name.starts_with("live timer of a stopped search"))).collect();
     for w in &out {
         scripts.push(word_script(w, false));
         scripts.push(word_script(w, true));
@@ -694,7 +699,7 @@ pub fn run(tier: &str, seed: i64) -> Outcome {
     let acc = run_workers(&self_exe(), args, 16);
     let n = all_scripts(tier).len();
     let bound = if tier == "quick" { 2 } else { 3 };
-    let reports = vec![SpaceReport { name: format!("E5: {} scripts (all words of length <= {} over the 9-command alphabet after `position P0`, eager and reactive GUI, plus 12 scenario scripts) x all interleavings with deviation cost <= {}", n, if tier == "quick" { 3 } else { 4 }, bound), states: acc.states, exhaustive: !acc.counts.contains_key("scripts whose exploration hit the execution cap (not exhaustive for them)"), note: format!("[{:.1}s, 16 worker processes]", t0.elapsed().as_secs_f64()) }];
+    let reports = vec![SpaceReport { name: format!("E5: {} scripts (all words of length <= {} over the 9-command alphabet after `position P0`, eager and reactive GUI, plus 12 (quick) / 13 scenario scripts) x all interleavings with deviation cost <= {}", n, if tier == "quick" { 3 } else { 4 }, bound), states: acc.states, exhaustive: !acc.counts.contains_key("scripts whose exploration hit the execution cap (not exhaustive for them)"), note: format!("[{:.1}s, 16 worker processes]", t0.elapsed().as_secs_f64()) }];
     let (mut acc, mut reports) = (acc, reports);
     let t1 = std::time::Instant::now();
     let deep = deep_sessions(tier);
